@@ -7,6 +7,7 @@ hour stays symbolic.
 from ..context import PRAYERS, SIX, AnchorLost
 from .. import engine as E
 from ..engine import is_const, cval
+from .. import domains as D
 from ..terms import show, subterms
 from .common import const_f64
 
@@ -61,7 +62,13 @@ def wrap24_of(t):
 def nonneg_wrap_of(t):
     """(h0, ok) if t is h0 made non-negative by adding 24 while negative"""
     if not (isinstance(t, tuple) and t and t[0] == 'ite'):
-        return t, None
+        # no wrap as the last step: acceptable only if the value cannot be negative
+        from ..rules import c14 as _c14
+        lb = _c14.lower_bound(t)
+        if lb is not None and lb >= 0:
+            return t, None
+        return None, ('the hour whose minutes and seconds are taken is not wrapped into [0, 24): negative values (after the minute '
+                      'offset) are not moved by +24: ' + show(t, maxd=4)[:120])
     c = t[1]
     if not (c[0] == 'bin' and c[1] == 'Lt' and const_f64(c[3]) == 0.0 and c[2] == t[3]):
         return None, 'negative-hour guard is not `hour < 0`'
@@ -141,6 +148,18 @@ def run(ctx, rep):
                 continue
             n_cells += 1
             H, M, S = (strip_cast(E.specialise(a, lv[0].asm)) for a in app[2])
+            # R11.7 the three operands of from_hms_opt are bounded on this path (the Some payload is unwrapped)
+            facts = {}
+            for c_, v_ in lv[0].asm.items():
+                if isinstance(v_, bool):
+                    facts.update(D.facts_from_cond(c_, v_))
+            badb = []
+            for arg, lim, nm in zip((H, M, S), (24.0, 60.0, 60.0), ('hour', 'minute', 'second')):
+                ub = D.upper_bound(arg, facts)
+                if ub is None or ub[0] > lim or (ub[0] == lim and not ub[1]):
+                    badb.append(f'{nm} operand has no bound < {lim:g} (got {ub}): {show(arg, maxd=4)[:100]}')
+            rep.ob('R11.7', f'{key}:operands-bounded', not badb, 'hour < 24, minute < 60, second < 60: from_hms_opt cannot return None'
+                   if not badb else '; '.join(badb[:2]))
             X = wrap24_of(H)
             if X is None:
                 rep.ob('R11.4', f'{key}:wrap24', False, f'hour operand is not `if h >= 24 {{ h % 24 }} else {{ h }}`: {show(H, maxd=5)[:160]}')
